@@ -3,6 +3,7 @@ package rules
 
 import (
 	"fmt"
+	"go/types"
 	"sort"
 	"strings"
 
@@ -744,4 +745,58 @@ func (c *Ctx) blockPos(b *ssa.BasicBlock, f *ir.Func) string {
 		}
 	}
 	return c.fnPos(f)
+}
+
+// InitStore: the package-level variable pkgRel.name is initialised (exactly once, in the package initialiser)
+// with a value matching pattern.
+func (c *Ctx) InitStore(pkgRel, name, pattern, desc string) {
+	pattern = c.X(pattern)
+	sp := c.P.SSAPkg(pkgRel)
+	subject := pkgRel + "." + name
+	if sp == nil {
+		c.add("C", subject, "init", desc, report.Undecided, "package not loaded", "")
+		return
+	}
+	initFn := sp.Func("init")
+	g, _ := sp.Members[name].(*ssa.Global)
+	if initFn == nil || g == nil {
+		c.add("C", subject, "init", desc, report.Undecided, "anchor does not resolve", "")
+		return
+	}
+	f := c.Wrap(initFn)
+	var sts []*ssa.Store
+	for _, b := range initFn.Blocks {
+		for _, ins := range b.Instrs {
+			if st, ok := ins.(*ssa.Store); ok && st.Addr == g {
+				sts = append(sts, st)
+			}
+		}
+	}
+	if len(sts) != 1 {
+		c.add("C", subject, "init", desc, report.Violated, fmt.Sprintf("%d initialising stores", len(sts)), c.P.Rel(g.Pos()))
+		return
+	}
+	t := f.Term(sts[0].Val)
+	if !ir.MatchAny(pattern, t) {
+		c.add("C", subject, "init", desc, report.Violated, fmt.Sprintf("initialised with %s, want %s", short(t.String()), pattern), c.P.Rel(g.Pos()))
+		return
+	}
+	c.add("C", subject, "init", desc, report.OK, short(t.String()), c.P.Rel(g.Pos()))
+}
+
+// ConstValue: the declared constant pkgRel.name has the given exact value.
+func (c *Ctx) ConstValue(pkgRel, name, want string) {
+	subject := pkgRel + "." + name
+	pk := c.P.Pkg(pkgRel)
+	if pk == nil || pk.Types == nil {
+		c.add("C", subject, "const", "constant has the documented value "+want, report.Undecided, "package not loaded", "")
+		return
+	}
+	obj, _ := pk.Types.Scope().Lookup(name).(*types.Const)
+	if obj == nil {
+		c.add("C", subject, "const", "constant has the documented value "+want, report.Undecided, "anchor does not resolve", "")
+		return
+	}
+	got := obj.Val().ExactString()
+	c.add("C", subject, "const", "constant has the documented value "+want, map[bool]report.Status{true: report.OK, false: report.Violated}[got == want], got, c.P.Rel(obj.Pos()))
 }
